@@ -103,7 +103,7 @@ func segment(stream []byte, cuts []int) [][]byte {
 	return out
 }
 
-var handlerKinds = []string{"dev", "dev", "mix", "typed", "generic"}
+var handlerKinds = []string{"dev", "dev", "mix", "typed", "typedp", "generic"}
 
 func genC15(tier string, rng *rand.Rand, shard, nshards int, emit emitter) {
 	count := 2500
@@ -214,7 +214,7 @@ func genC16(tier string, rng *rand.Rand, shard, nshards int, emit emitter) {
 	i := 0
 	// every function code 1..127 once with each handler
 	for fc := 1; fc <= 255; fc++ {
-		for _, h := range []string{"dev", "typed", "generic", "panic"} {
+		for _, h := range []string{"dev", "typed", "typedp", "generic", "panic"} {
 			i++
 			if !mine(i, shard, nshards) {
 				continue
